@@ -106,31 +106,32 @@ Theorem C02_gate_ignored : forall (F : funs) (var : variant) (p : prior R) (u : 
   exists v, value_for_R F var p true u = Ok v.
 Proof. exact gate_ignored_b. Qed.
 
-(* the gate only filters (current code, any number type incl. binary64): enforcing the limits never changes a value *)
-Theorem C02_gate_transparent : forall (N : Type) (A : Arith N) (S : Special N) (p : prior N) (u v : N),
+(* code before 9c8aefe: the gate only filtered (any number type incl. binary64) *)
+Theorem C02_before_fix_gate_transparent : forall (N : Type) (A : Arith N) (S : Special N) (p : prior N) (u v : N),
   prior_value_for A S Current p false u = Ok v -> prior_value_for A S Current p true u = Ok v.
 Proof. exact @gate_transparent. Qed.
 
 (* UniformPrior: FULL statement "a returned value lies within the limits" over exact rationals with the exact
-   decimal rounding: refuted for the current code, proved under the guard, proved for the repair *)
-Theorem C02_uniform_within_limits_refuted : ~ uniform_within_limits Current.
+   decimal rounding: proved for the code as it is (C02_uniform_within_limits); for the code before 9c8aefe it was
+   refuted and held only under the guard *)
+Theorem C02_before_fix_uniform_within_limits_refuted : ~ uniform_within_limits Current.
 Proof. exact uniform_within_limits_current_refuted. Qed.
 
-Theorem C02_uniform_within_limits_partial : forall (p : prior Q) (x r : Q),
+Theorem C02_before_fix_uniform_within_limits_partial : forall (p : prior Q) (x r : Q),
   (round14_Q (p_lo p) == p_lo p)%Q -> (round14_Q (p_hi p) == p_hi p)%Q ->
   post QA Current p false x = Ok r -> (p_lo p <= r /\ r <= p_hi p)%Q.
 Proof. exact uniform_within_limits_current_partial. Qed.
 
-Theorem C02_uniform_within_limits_repaired : uniform_within_limits Repaired.
+Theorem C02_uniform_within_limits : uniform_within_limits Repaired.
 Proof. exact uniform_within_limits_repaired. Qed.
 
 (* the same over the reals for any monotone rounding *)
-Theorem C02_gate_uniform_partial : forall F : funs, round_ok F -> forall (p : prior R) (u v : R),
+Theorem C02_before_fix_gate_uniform_partial : forall F : funs, round_ok F -> forall (p : prior R) (u v : R),
   f_round14 F (p_lo p) = p_lo p -> f_round14 F (p_hi p) = p_hi p ->
   value_for_R F Current p false u = Ok v -> p_lo p <= v <= p_hi p.
 Proof. exact gate_uniform_partial_b. Qed.
 
-Theorem C02_gate_repaired : forall (F : funs) (p : prior R) (u v : R),
+Theorem C02_gate_uniform : forall (F : funs) (p : prior R) (u v : R),
   value_for_R F Repaired p false u = Ok v -> p_lo p <= v <= p_hi p.
 Proof. exact gate_repaired_b. Qed.
 
@@ -167,6 +168,53 @@ Theorem C02_random_gaussian_never_raises : forall F : funs, special_ok F ->
   exists v, random_R F var p l u r = Ok v /\ p_lo p <= v <= p_hi p.
 Proof. exact random_gaussian_b. Qed.
 
+(* the code as it is: enforcing the limits changes a value exactly where the rounding would leave the limits *)
+Theorem C02_gate_transparent_refuted : ~ gate_transparent_at_post Repaired.
+Proof. exact gate_transparent_repaired_refuted. Qed.
+
+Theorem C02_gate_transparent_partial : forall (N : Type) (A : Arith N) (S : Special N) (p : prior N) (u v : N),
+  (p_family p <> Uniform \/ within A p (a_round14 A (msg_value_for A S (message_of A S p) u)) = true) ->
+  prior_value_for A S Repaired p false u = Ok v -> prior_value_for A S Repaired p true u = Ok v.
+Proof. exact @gate_transparent_repaired_partial. Qed.
+
+(* ---- the closed ends u = 0 and u = 1 (no assumption on the special functions but the stated value) ---- *)
+
+Theorem C02_value_for_at_zero_uniform : forall F : funs, round_ok F -> forall p : prior R,
+  p_family p = Uniform -> p_lo p < p_hi p -> base_unit_R F 0 = 0 ->
+  exists v, value_for_R F Repaired p false 0 = Ok v /\ p_lo p <= v <= p_hi p /\ Rabs (v - p_lo p) <= 5 / 10 ^ 15.
+Proof. exact value_at_zero_uniform_b. Qed.
+
+Theorem C02_value_for_at_one_uniform : forall F : funs, round_ok F -> forall p : prior R,
+  p_family p = Uniform -> p_lo p < p_hi p -> base_unit_R F 1 = 1 ->
+  exists v, value_for_R F Repaired p false 1 = Ok v /\ p_lo p <= v <= p_hi p /\ Rabs (v - p_hi p) <= 5 / 10 ^ 15.
+Proof. exact value_at_one_uniform_b. Qed.
+
+Theorem C02_value_for_at_ends_loguniform : forall F : funs, round_ok F -> forall p : prior R,
+  p_family p = LogUniform -> 0 < p_lo p -> p_lo p < p_hi p ->
+  (base_unit_R F 0 = 0 -> value_for_R F Repaired p false 0 = Ok (p_lo p)) /\
+  (base_unit_R F 1 = 1 -> value_for_R F Repaired p false 1 = Ok (p_hi p)).
+Proof. exact value_at_ends_loguniform_b. Qed.
+
+(* ---- random draws never raise (exact arithmetic) ---- *)
+
+Theorem C02_loguniform_unit_limits : forall F : funs, special_ok F -> forall p : prior R,
+  p_family p = LogUniform -> 0 < p_lo p -> p_lo p < p_hi p -> lower_unit_R F p = Reps /\ upper_unit_R F p = 1 - Reps.
+Proof. exact loguniform_unit_limits_b. Qed.
+
+Theorem C02_random_bounded_never_raises : forall F : funs, special_ok F -> round_ok F -> forall (p : prior R) (l u r : R),
+  (p_family p = Uniform \/ (p_family p = LogUniform /\ 0 < p_lo p)) -> p_lo p < p_hi p ->
+  Rmax l (lower_unit_R F p) <= Rmin u (upper_unit_R F p) -> 0 <= r <= 1 ->
+  exists v, random_R F Repaired p l u r = Ok v /\ p_lo p <= v <= p_hi p.
+Proof. exact random_bounded_b. Qed.
+
+(* lower limit > 0 only: for the default lower limit 0 the code evaluates np.log(0) = -inf, outside the real model *)
+Theorem C02_random_loggaussian_never_raises : forall F : funs, special_ok F ->
+  forall (var : variant) (p : prior R) (l u r : R),
+  p_family p = LogGaussian -> 0 < p_sigma p -> 0 < p_lo p -> p_lo p < p_hi p ->
+  Rmax l (lower_unit_R F p) <= Rmin u (upper_unit_R F p) -> 0 <= r <= 1 ->
+  exists v, random_R F var p l u r = Ok v /\ p_lo p <= v <= p_hi p.
+Proof. exact random_loggaussian_b. Qed.
+
 (* ---- vector_from_unit_vector: value_for position by position (any number type) ---- *)
 
 Theorem C02_vector : forall (N : Type) (A : Arith N) (S : Special N) (var : variant) (ig : bool)
@@ -186,5 +234,5 @@ Proof. exact @vector_for_raises. Qed.
 Print Assumptions C02_monotone.
 Print Assumptions C02_inverse_message.
 Print Assumptions C02_quantile_loguniform.
-Print Assumptions C02_uniform_within_limits_refuted.
+Print Assumptions C02_before_fix_uniform_within_limits_refuted.
 Print Assumptions C02_vector.
